@@ -58,5 +58,5 @@ Emit == ~done \/ PrintT(<<"CASE", ToJson([tree |-> tree, index |-> TreeIndex(tre
                                  pats |-> SetToSeq({[comps |-> pt.comps, slash |-> pt.slash, abs |-> pt.abs, rep |-> pt.rep, exp |-> SetToSeq(Expected(FS, pt)),
                                                      expstr |-> SetToSeq(ExpectedStrings(FS, pt)),
                                                      exp2 |-> SetToSeq(Expected(FS, DropBS(pt))), expstr2 |-> SetToSeq(ExpectedStrings(FS, DropBS(pt))),
-                                                     expw |-> SetToSeq(ExpectedWord(FS, pt)), expw2 |-> SetToSeq(ExpectedWord(FS, DropBS(pt)))] : pt \in {q \in Pats : Usable(q)}})])>>)
+                                                     wtext |-> WordText(pt), expw |-> SetToSeq(ExpectedWord(FS, pt)), expw2 |-> SetToSeq(ExpectedWord(FS, DropBS(pt)))] : pt \in {q \in Pats : Usable(q)}})])>>)
 =============================================================================
